@@ -2,7 +2,12 @@
 decimal-exact.
 
 Spec: spec/Text.tla.  Texts are sequences of symbol codes built by AppendChar
-(typed text) or are the Excel rendering of a number k/10^j; TEXT() formats are
+(typed text) or are the Excel rendering of a number k/10^j (Text!General: 15
+significant digits, positional "0.00001" or scientific "1E+21"; the Scale
+action moves the decimal point through every magnitude from 10^-25 to 10^22 or
+more, the magnitudes where Excel's choice of notation is not beyond doubt are
+exported as "number" vectors and only checked for the agreement of the
+functions with each other); TEXT() formats are
 built by AppendFmt along the grammar  #*0* [one ',' between placeholders]
 [. 0* #*] [%].  TLC checks the laws of the statement on the definitions
 (SplitLaw, RightLaw, MidLaw, TruncLaw, ReplaceLaw, FindLaw, SubstLaw,
@@ -26,6 +31,7 @@ import json
 import multiprocessing
 import os
 import random
+import re
 from fractions import Fraction
 
 from harness import tlc, xl
@@ -35,7 +41,8 @@ PID = 'C20'
 
 # symbol codes of spec/Text.tla
 CH = {1: 'a', 2: 'b', 3: ' ', 4: 'A', 5: 'é', 6: 'B', 7: 'É',
-      8: '日', 20: '.', 21: '-', 22: ',', 23: '%', 24: '#'}
+      8: '日', 20: '.', 21: '-', 22: ',', 23: '%', 24: '#',
+      25: 'E', 26: '+', 27: 'e'}
 CH.update({10 + d: str(d) for d in range(10)})
 
 
@@ -116,18 +123,21 @@ def _tla_set(items):
     return '{' + ', '.join(items) + '}'
 
 
-def job_module(name, *, seeds, maxlen, nums, fmtmax):
+def job_module(name, *, seeds, maxlen, nums, fmtmax, scaled=()):
     """A wrapper module over MC_Text with the constants of one TLC job
-    (nums / fmtmax may name a definition of MC_Text)."""
+    (nums / scaled / fmtmax may name a definition of MC_Text)."""
     d = tlc.new_scratch('text')
     if not isinstance(nums, str):
         nums = _tla_set(f'<<{k}, {j}>>' for k, j in nums)
+    if not isinstance(scaled, str):
+        scaled = _tla_set(f'<<{k}, {j}>>' for k, j in scaled)
     with open(os.path.join(d, name + '.tla'), 'w') as f:
         f.write(f"""---- MODULE {name} ----
 EXTENDS MC_Text
 TSeeds  == {_tla_set(_tla_seq(s) for s in seeds)}
 TMaxLen == {maxlen}
 TNums   == {nums}
+TScaled == {scaled}
 TFmtMax == {fmtmax}
 ====
 """)
@@ -163,6 +173,7 @@ def job_worker(job):
     drv = Driver(random.Random(job['seed']), job['row_prob'], job['text_row_prob'])
     drv.vectors(vectors)
     drv.flush_rows()
+    drv.flush_num_rows()
     drv.flush_text_rows()
     out = drv.result()
     out.update(label=label, vectors=len(vectors),
@@ -179,6 +190,27 @@ class _Res:
         self.depth, self.wall = d['depth'], d['wall']
 
 
+def number_inputs(k, j):
+    """Python values standing for the number k/10^j: the int and the float
+    holding it when it is whole (3 and 3.0 are both "3", 10**21 and 1e21 both
+    "1E+21"), else the nearest double"""
+    if j <= 0:
+        n = k * 10 ** -j
+        return [n, float(n)]
+    return [float(Fraction(k, 10 ** j))]
+
+
+def amp_operator():
+    """the & operator of a formula as a function of its two operands"""
+    from pycel.excelutil import build_operator_operand_fixup
+    fix = build_operator_operand_fixup(lambda *a: None)
+    return lambda a, b: fix(a, 'BitAnd', b)
+
+
+# what a number looks like as text, in either notation of the General format
+NUMERAL = re.compile(r'-?[0-9]+(\.[0-9]+)?(E[+-][0-9]{2,3})?')
+
+
 # --------------------------------------------------------------------------
 
 class Driver:
@@ -188,6 +220,7 @@ class Driver:
              'concatenate concat len_ text').split()
     COUNTERS = ('judged unjudged unjudged_raised len_whole_float formula_cells fractional '
                 'slice_states text_states prefix_states text_unjudged '
+                'number_states scientific_states tiny_states agreement_inputs '
                 'nviolations').split()
 
     def __init__(self, rnd, row_prob, text_row_prob):
@@ -197,6 +230,7 @@ class Driver:
         self.row_prob, self.text_row_prob = row_prob, text_row_prob
         self.W = {n: apply_meta(getattr(T, n), name_space={})[0]
                   for n in self.FUNCS}
+        self.W['amp'] = amp_operator()       # a & b as the formula evaluates it
         for c in self.COUNTERS:
             setattr(self, c, 0)
         self.per_fn = {}
@@ -204,6 +238,7 @@ class Driver:
         self.samples = []
         self.text_samples = []
         self.rows = []          # pending formula rows
+        self.num_rows = []      # numbers for the workbook of agreement formulas
         self.text_rows = []
         self.seen_last_char = set()
         self.seen_last_fmt = set()
@@ -254,7 +289,8 @@ class Driver:
                 else f"{c['formula']} with {c['cells']!r}")
         self.violations.append(dict(
             desc=f"{what} via {c['via']}: expected "
-                 f"{' or '.join(repr(w) for w in wants)}, got {got!r}",
+                 f"{' or '.join(repr(w) for w in wants)}, got {got!r}"
+                 + (f" ({c['note']})" if c.get('note') else ''),
             case=c))
 
     # -- slicing vectors ----------------------------------------------------
@@ -265,10 +301,7 @@ class Driver:
         src = seq(vec['src'])
         if src[0] == 'T':
             return st, [st]
-        k, j = int(src[1]), int(src[2])
-        if j == 0:
-            return st, [k, float(k)]       # 3 and 3.0 are both "3"
-        return st, [float(Fraction(k, 10 ** j))]
+        return st, number_inputs(int(src[1]), int(src[2]))
 
     def slice_vector(self, vec):
         rnd = self.rnd
@@ -279,6 +312,12 @@ class Driver:
             self.maxlen_seen = max(self.maxlen_seen, len(st))
             if st:
                 self.seen_last_char.add(st[-1])
+        if src[0] == 'N':
+            self.number_states += 1
+            self.scientific_states += 'E' in st
+            self.tiny_states += st.lstrip('-').startswith('0.0000')
+            for x in xs:
+                self.agreement(x)
         lo, hi = vec['pos']
         poss = list(range(lo, hi + 1))
         tenths = sorted(vec['tenths'])       # n >= 0 is also passed as n + f/10
@@ -372,9 +411,12 @@ class Driver:
                 lib('concatenate', (x, t), w)
                 lib('concat', (x, t), w)
                 lib('concatenate', (x, t, x), w3)
+                lib('amp', (x, t), w)           # CONCATENATE and & agree
+                lib('amp', (w, x), w3)
                 if t == '3':
                     lib('concatenate', (x, 3.0), w)
                     lib('concatenate', (x, 3), w)
+                    lib('amp', (x, 3.0), w)
             for t, w in exact:
                 lib('exact', (x, t), w)
                 lib('exact', (t, x), w)
@@ -385,9 +427,9 @@ class Driver:
             for fn, w in (('trim', trim), ('upper', upper), ('lower', lower)):
                 lib(fn, (w,), w)
 
-        # rows for the workbook run
+        # rows for the workbook run (every number, a share of the typed texts)
         for x in xs:
-            if rnd.random() >= self.row_prob:
+            if rnd.random() >= (1.0 if src[0] == 'N' else self.row_prob):
                 continue
             n = rnd.choice(poss)
             k = rnd.choice(poss)
@@ -416,6 +458,133 @@ class Driver:
                          else want_len))))
         if len(self.rows) >= 120:
             self.flush_rows()
+
+    # -- numbers in the functions' own words --------------------------------
+    def agreement(self, x):
+        """Whatever notation the code chooses for the number x, CONCATENATE, &
+        and the slicing functions must see the same text ("CONCATENATE and &
+        agree", LEFT & MID = s, RIGHT is the tail), and that text is a numeral
+        of at most 15 significant digits that reads back as x.  Judged for
+        every number, also where the notation Excel chooses is not (vectors
+        of kind "number")."""
+        self.agreement_inputs += 1
+        W = self.W
+
+        def call(fn, *args):
+            try:
+                return W[fn](*args)
+            except Exception as exc:        # noqa
+                return exc
+
+        def same(fn, args, want, note):
+            got = call(fn, *args)
+            if type(got) is type(want) and got == want:
+                self.judged += 1
+                self.per_fn[fn] = self.per_fn.get(fn, 0) + 1
+                return
+            self.judge(fn, got, want, lambda: dict(
+                via='library', fn=fn, args=list(args), law='agreement', x=x,
+                note=note))
+
+        r = call('concatenate', x)
+        ok = isinstance(r, str) and NUMERAL.fullmatch(r) is not None
+        if ok:
+            digits = re.sub(r'E.*|[-.]', '', r).strip('0')
+            ok = len(digits) <= 15 and \
+                abs(Fraction(r.replace('E', 'e')) - Fraction(x)) <= abs(Fraction(x)) / 10 ** 14
+        if not ok:
+            self.judge('concatenate', r, 'a numeral ([-]digits[.digits][E+dd]) of at most '
+                       f'15 significant digits for {x!r}', lambda: dict(
+                           via='library', fn='concatenate', args=[x], law='agreement', x=x,
+                           note='in neither notation of the General format'))
+        else:
+            self.judged += 1
+            self.per_fn['concatenate'] = self.per_fn.get('concatenate', 0) + 1
+        if not isinstance(r, str):
+            return
+        note = f'CONCATENATE({x!r}) is {r!r}'
+        same('amp', (x, ''), r, note)
+        same('amp', ('', x), r, note)
+        same('concat', (x,), r, note)
+        for t in ('b', 3.0, x):
+            both = call('concatenate', x, t)
+            if isinstance(both, str):
+                same('amp', (x, t), both, f'CONCATENATE({x!r}, {t!r}) is {both!r}')
+        n = len(r)
+        if not (isinstance(x, float) and x.is_integer()):
+            same('len_', (x,), n, note)       # (LEN of a whole float: pinned)
+        for i in sorted({0, 1, 2, 3, n - 1, n, n + 1}):
+            if i < 0:
+                continue
+            same('left', (x, i), r[:i], note)
+            same('right', (x, i), r[n - i:] if i <= n else r, note)
+            same('mid', (x, i + 1, n), r[i:], note)
+            same('replace', (x, i + 1, 1, 'b'), r[:i] + 'b' + r[i + 1:], note)
+        same('exact', (x, r), True, note)
+        same('trim', (x,), r, note)
+        same('upper', (x,), r.upper(), note)
+        same('lower', (x,), r.lower(), note)
+        same('find', (r[-1], x), r.index(r[-1]) + 1, note)
+        same('substitute', (x, r[0], 'b'), r.replace(r[0], 'b'), note)
+        self.num_rows.append(x)
+        if len(self.num_rows) >= 150:
+            self.flush_num_rows()
+
+    NUM_COLS = [
+        # formula, expected value from r = the value of =CONCATENATE(A{r}),
+        # function, judged for a whole float (LEN(3.0) is pinned)
+        ('C', '=A{r}&""', lambda r: r, 'amp', True),
+        ('D', '=""&A{r}', lambda r: r, 'amp', True),
+        ('E', '=LEFT(A{r},3)&MID(A{r},4,LEN(A{r}))', lambda r: r, 'left', False),
+        ('F', '=LEN(A{r})', len, 'len_', False),
+        ('G', '=RIGHT(A{r},2)', lambda r: r[-2:], 'right', True),
+        ('H', '=LEFT(A{r},4)', lambda r: r[:4], 'left', True),
+        ('I', '=EXACT(CONCATENATE(A{r},"b",A{r}),A{r}&"b"&A{r})', lambda r: True,
+         'concatenate', True),
+    ]
+
+    def flush_num_rows(self):
+        xs, self.num_rows = self.num_rows, []
+        if not xs:
+            return
+        cells = {}
+        for r, x in enumerate(xs, start=1):
+            cells[f'A{r}'] = x
+            cells[f'B{r}'] = f'=CONCATENATE(A{r})'
+            for col, tpl, _, _, _ in self.NUM_COLS:
+                cells[f'{col}{r}'] = tpl.format(r=r)
+        try:
+            model = xl.compile_wb(cells)
+        except Exception as exc:            # noqa
+            raise tlc.MachineryFailure(
+                f'workbook of number rows does not compile: {exc!r}')
+        for r, x in enumerate(xs, start=1):
+            try:
+                text = model.evaluate(f'S!B{r}')
+            except Exception as exc:        # noqa
+                text = exc
+            if not isinstance(text, str):
+                continue                    # reported by the library run
+            for col, tpl, want, fn, whole_ok in self.NUM_COLS:
+                if not whole_ok and isinstance(x, float) and x.is_integer():
+                    continue
+                f = tpl.format(r=r)
+                try:
+                    got = model.evaluate(f'S!{col}{r}')
+                except Exception as exc:    # noqa
+                    got = exc
+                self.formula_cells += 1
+                self.judge(fn, got, want(text), lambda: dict(
+                    via='formula', formula=f, fn=fn, cells=dict(A=x),
+                    law='agreement', x=x,
+                    note=f'=CONCATENATE(A{r}) is {text!r}'))
+
+    def number_vector(self, vec):
+        """a number at a magnitude where Excel's notation is not judged"""
+        src = seq(vec['src'])
+        self.number_states += 1
+        for x in number_inputs(int(src[1]), int(src[2])):
+            self.agreement(x)
 
     # -- formulas -----------------------------------------------------------
     COLS = [
@@ -465,6 +634,9 @@ class Driver:
                 f = tpl.format(r=r)
                 if col == 'X' and isinstance(row['x'], str) and r % 3 == 0:
                     f = f'=LEFT("{row["st"]}",B{r})'   # the text as a literal
+                elif col == 'X' and not isinstance(row['x'], str) and r % 2 == 0:
+                    # the number as a literal, spelled as Excel shows it
+                    f = f'=LEFT({row["st"]},B{r})'
                 cells[f'{col}{r}'] = f
                 plan.append((f'{col}{r}', f, w[key], fn, row))
         try:
@@ -532,6 +704,8 @@ class Driver:
                 self.slice_vector(vec)
             elif kind == 'text':
                 self.text_vector(vec)
+            elif kind == 'number':
+                self.number_vector(vec)
             elif kind == 'prefix':
                 self.prefix_states += 1
                 if vec['fmt']:
@@ -583,16 +757,29 @@ def plan_jobs(tier, rnd):
         maxlen, fmtmax = 4, 5
         add('numbers and formats', 'MC_TextN', seeds=[()], maxlen=0,
             nums='MCNums', fmtmax='MCFmtMax')
+        add('magnitudes', 'MC_TextS', seeds=[()], maxlen=0, nums=[], fmtmax=0,
+            scaled='MCScaled')
         for a in ALPHABET:
             add(f'texts {CH[a]!r}..', f'MC_TextP{a}', seeds=[(a,)],
                 maxlen='MCMaxLen', nums=[], fmtmax=0)
-        row_prob, text_row_prob, workers, procs = 0.35, 0.04, 3, 7
+        row_prob, text_row_prob, workers, procs = 0.35, 0.04, 3, 8
     else:
         maxlen, fmtmax = 5, 8
         ties = tie_numbers(rnd, 60)
         add('numbers and formats', 'MC_TextN', seeds=[()], maxlen=0,
             nums='MCNums \\cup ' + _tla_set(f'<<{k}, {j}>>' for k, j in ties),
             fmtmax=fmtmax)
+        # the decimal point of 1, -2.5, 1203 and of random numbers of up to
+        # nine digits is moved through every magnitude of MCScaleJ
+        for i in range(2):
+            ks = {1203} if i == 0 else set()
+            while len(ks) < 4:
+                k = rnd.randrange(1, 10 ** rnd.randrange(1, 10)) * rnd.choice((1, 1, -1))
+                if k % 10:
+                    ks.add(k)
+            scaled = _tla_set(f'<<{k}, 0>>' for k in sorted(ks))
+            add(f'magnitudes ({i})', f'MC_TextS{i}', seeds=[()], maxlen=0, nums=[],
+                fmtmax=0, scaled=('MCScaled \\cup ' if i == 0 else '') + scaled)
         for a in ALPHABET:
             add(f'texts {CH[a]!r}..', f'MC_TextP{a}', seeds=[(a,)],
                 maxlen=maxlen, nums=[], fmtmax=0)
@@ -675,6 +862,12 @@ def run(tier, seed):
             f'vacuous: AppendFmt outcomes seen {sorted(seen_fmt)}')
     if not (total['slice_states'] and total['text_states'] and total['formula_cells']):
         raise tlc.MachineryFailure('vacuous: no slicing / TEXT / formula vectors')
+    if not (total['scientific_states'] and total['tiny_states']
+            and total['number_states'] > total['scientific_states'] + total['tiny_states']
+            and total['agreement_inputs'] > total['number_states']):
+        raise tlc.MachineryFailure(
+            'vacuous: Scale did not reach the exponent notation / the numbers '
+            'below 0.0001 / the magnitudes that are not judged')
     if longest != (maxlen if tier == 'quick' else 8):
         raise tlc.MachineryFailure(f'vacuous: longest typed text seen {longest}')
     if total['unjudged_raised']:
@@ -696,6 +889,9 @@ def run(tier, seed):
                     longest_text=longest,
                     positions='-1..10, and n + 0.5, n + 0.9 for n in 0..10',
                     new_texts=['', 'b', CH[8] + 'a', '3 (also passed as 3 and 3.0)'],
+                    numbers='k/10^j of MCNums; 1, -2.5 (thorough: also 1203 and random '
+                            'numbers of up to 9 digits) at every magnitude '
+                            '10^-25..10^22, as int / whole float / double',
                     search_texts='all texts of length <= 2 over the alphabet '
                                  '+ the pieces of the text itself',
                     text_format_max_len=fmtmax),
@@ -703,6 +899,10 @@ def run(tier, seed):
         coverage_actions=cov['coverage'],
         tlc_jobs=len(jobs),
         slicing_states=total['slice_states'],
+        number_states=total['number_states'],
+        number_states_in_exponent_notation=total['scientific_states'],
+        number_states_below_1e_4=total['tiny_states'],
+        numbers_checked_for_agreement=total['agreement_inputs'],
         text_states=total['text_states'],
         format_prefix_states=total['prefix_states'],
         formula_cells_evaluated=total['formula_cells'],
@@ -723,10 +923,19 @@ def run(tier, seed):
             'SUBSTITUTE with an instance < 1',
             'a negative position / count with a fraction (-0.5)',
             'TEXT of a negative number that rounds to zero (-0.00 vs 0.00)',
-            'LEN of a whole float (pinned by the repository tests)'])
+            'LEN of a whole float (pinned by the repository tests)',
+            'the notation (positional or exponent) of a number in '
+            '[1E15, 1E20) and of a number below 1E-9 whose positional notation '
+            'fits 20 characters: only CONCATENATE = & = what LEFT / MID / RIGHT / '
+            'LEN see, and that it is a numeral for the number, are judged',
+            'numbers of more than 15 significant digits (0.1+0.2): not enumerated'])
     v.assumptions = [
         'TLC evaluates the definitions of Text.tla correctly',
-        'float(Fraction(k, 10**j)) has the shortest repr k/10^j (|k| < 10^7, j <= 5)',
+        'the double nearest k/10^j (|k| < 10^10) is the number k/10^j for Excel: '
+        'its 15 significant digits are those of k',
+        "Excel's General notation is taken as certain only for 1E-9 <= |x| < 1E15 "
+        '(positional), |x| >= 1E20 and |x| < 1E-9 needing more than 20 characters '
+        '(exponent)',
         'action coverage measured with TypeOK only (Text_cov.cfg); the '
         'law-checking runs are checked for non-vacuity through their vectors']
     return v.finish()
@@ -740,8 +949,24 @@ def replay(path):
     case = rec['case']
     from pycel.lib import text as T
     from pycel.lib.function_helpers import apply_meta
+    if case.get('law') == 'agreement':
+        # the expected value was what CONCATENATE made of the number: run the
+        # agreement checks for this number again
+        drv = Driver(random.Random(0), 0, 0)
+        drv.agreement(case['x'])
+        drv.flush_num_rows()
+        print(rec['desc'])
+        for viol in drv.violations[:5]:
+            print('  now:', viol['desc'])
+        if not drv.violations:
+            print(f'{PID}: replay OK (no longer reproduces)')
+            return 0
+        print(f'VIOLATION property={PID} replay={path}')
+        return 1
     try:
-        if case.get('via') == 'library':
+        if case.get('via') == 'library' and case['fn'] == 'amp':
+            got = amp_operator()(*case['args'])
+        elif case.get('via') == 'library':
             got = apply_meta(getattr(T, case['fn']), name_space={})[0](*case['args'])
         else:
             cells = {f'{c}1': x for c, x in case['cells'].items()}
